@@ -38,6 +38,15 @@ aggregate written for C08 (`props.c08.Oracle`, fed from the metric-level script 
      sig is C09:per-pid-gauge (all/liveall) or C09:gauge-aggregate;
  (d) per generation.
 The whole world (W/D tokens interleaved with the generations' value-level logs) is ONE `c08 hist` request.
+
+remove()/clear() then labels() again (main stream): `['remove', mi, labelvalues]` = `parent.remove(*labelvalues)`,
+`['clear', mi]` = `parent.clear()` (labelled metrics only; ignored otherwise).  The old child handle is DROPPED — the
+harness never keeps child handles, every step goes through `labels()`, so the next step on that child constructs NEW
+value objects on the SAME keys (a second `C` with identical params in the value-level log).  Expectation from the
+property text: remove/clear touch no file, the re-created child CONTINUES from what the current identity's file holds,
+so (a)-(d) apply unchanged and the oracle's bookkeeping is not reset (a removed child that is never re-created still
+contributes its old value); the dropped value objects may be stale and are excluded from (d).  Harness invariant,
+reported as C09:dropped-child-used: after a remove/clear no logged inc/set/get refers to a dropped value object.
 """
 import hashlib
 import os
@@ -259,9 +268,9 @@ def oracle_bc(res, i, oracle, collected):
     return canon
 
 
-def oracle_d(res, i, objs, pid, after):
+def oracle_d(res, i, objs, pid, after, skip=()):
     for idx, obj in enumerate(objs):
-        if not hasattr(obj, '_key'):
+        if not hasattr(obj, '_key') or idx in skip:
             continue
         fn = '%s_%s.db' % (file_prefix_of(obj), pid)
         held = [(v, t) for k, v, t in after.get(fn, []) if k == obj._key]
@@ -281,6 +290,23 @@ class Worker:
         self.cls, self.cell = sim.cell_class(pid, log)
         self.proc = c08.RealProc(self.cls, pool, sim.use, sim.clock, variant)
         self.ids = {pid}
+        self.current = set()    # (mi, lvs) of the children the parent metrics hold now
+        self.removed = set()    # (mi, lvs) removed/cleared and not re-created yet
+        self.dropped = set()    # value-object indices of dropped children (never used again)
+
+    def drop(self, pool, mi, lvs=None):
+        """the children of metric mi (only the one with label values lvs, if given) were removed from the parent"""
+        md = pool[mi]
+        gone = [c for c in self.current if c[0] == mi and (lvs is None or c[1] == lvs)]
+        for c in gone:
+            self.current.discard(c)
+            self.removed.add(c)
+        k = len(md['labels'])
+        for idx, obj in enumerate(self.log.objs):
+            prm = getattr(obj, '_params', None)
+            if prm is not None and prm[1] == md['name'] and any(tuple(prm[4][:k]) == c[1] for c in gone):
+                self.dropped.add(idx)
+        return len(gone)
 
 
 def run_history(scen, want_sample=False):
@@ -375,9 +401,23 @@ def run_history(scen, want_sample=False):
                         list(proc.metric(mi).collect())
                         if not md['labels']:
                             oracle.create_child(mi, ())
+                    elif op in ('remove', 'clear'):
+                        if md['labels']:
+                            sim.use(w.cls)
+                            if op == 'remove':
+                                proc.metric(mi).remove(*lvs)
+                                n_gone = w.drop(pool, mi, lvs)
+                            else:
+                                proc.metric(mi).clear()
+                                n_gone = w.drop(pool, mi)
+                            res.count('%s:%s' % (op, 'existing-child' if n_gone else 'nothing-to-drop'))
                     else:
                         proc.child(mi, lvs)
                         oracle.create_child(mi, lvs)
+                        if (mi, lvs) in w.removed:
+                            w.removed.discard((mi, lvs))
+                            res.count('relabel-after-remove')
+                        w.current.add((mi, lvs))
                         if op == 'reset':
                             sim.use(w.cls)
                             proc.child(mi, lvs).reset()
@@ -398,6 +438,10 @@ def run_history(scen, want_sample=False):
                     res.failures.append(('C09:raises', 'step %r under identity %s raised %s: %s' % (st, pid, raised, e), i))
                 if len(world.ops) > nlog:
                     oracle.touched(pid)
+                for o in world.ops[nlog:]:
+                    if o[0] in ('I', 'S', 'G') and o[1] in w.dropped:
+                        res.failures.append(('C09:dropped-child-used', 'step %r: value-level call %r goes to value object %d of a child '
+                                             'that was removed from its parent' % (st, o[:2], o[1]), i))
             after = mpsim.snapshot(sim.dir)
             raw_after = mpsim.raw_snapshot(sim.dir)
             oracle_unreadable(res, i, after)
@@ -410,7 +454,7 @@ def run_history(scen, want_sample=False):
                 continue
             canon = oracle_bc(res, i, oracle, collected)
             if kind == 'op' and len(world.ops) > nlog and raised is None:
-                oracle_d(res, i, w.log.objs, w.cell[0], after)
+                oracle_d(res, i, w.log.objs, w.cell[0], after, w.dropped)
         res.line = mpsim.hist_request(scen['pid0'], world.ops)
         res.nops = len(world.ops)
         res.gets = dict(world.gets)
@@ -521,6 +565,8 @@ def gen_history(rng, all_modes, long=False):
             steps.append(['child', mi, lvs])
         elif r < 0.41:
             steps.append(['read', mi])
+        elif md['labels'] and r < 0.46:
+            steps.append(['remove', mi, lvs] if rng.random() < 0.7 else ['clear', mi])
         elif md['kind'] == 'counter':
             if rng.random() < 0.04:
                 steps.append(['reset', mi, lvs])
@@ -619,6 +665,8 @@ def gen_world(rng, all_modes, long=False):
                 steps.append(['child', mi, lvs])
             elif r < 0.31:
                 steps.append(['read', mi])
+            elif md['labels'] and r < 0.36:
+                steps.append(['remove', mi, lvs] if rng.random() < 0.7 else ['clear', mi])
             elif md['kind'] == 'counter':
                 steps.append(['inc', mi, lvs, B(c08.gen_value(rng, md, 'inc'))])
             elif md['kind'] in ('summary', 'histogram'):
@@ -648,6 +696,48 @@ def gen_world(rng, all_modes, long=False):
     return {'pool': pool, 'pid0': pid0, 'steps': steps, 'variant': rng.randrange(3)}
 
 
+# ================================================================================================== remove / clear
+def relabel_bases():
+    """base scripts on LABELLED metrics (counter, gauge all + live modes, mostrecent, histogram, summary), identity 10"""
+    out = []
+    out.append(([mdef('counter', 'cl', ['l']), mdef('gauge', 'ga', ['l'], 'all')],
+                [['inc', 0, ['x'], B(1.0)], ['set', 1, ['x'], B(3.0), B(10.0)], ['inc', 0, ['x'], B(2.0)],
+                 ['inc', 1, ['x'], B(2.0), B(11.0)], ['inc', 0, ['y'], B(4.0)], ['read', 0]]))
+    out.append(([mdef('histogram', 'hl', ['l'], '', 'small'), mdef('gauge', 'gv', ['l'], 'livesum')],
+                [['obs', 0, ['x'], B(1.0)], ['set', 1, ['x'], B(4.0), B(10.0)], ['obs', 0, ['x'], B(3.0)],
+                 ['inc', 1, ['x'], B(1.0), B(11.0)], ['obs', 0, ['y'], B(2.5)], ['dec', 1, ['x'], B(0.5), B(12.0)]]))
+    out.append(([mdef('gauge', 'gm', ['l'], 'mostrecent'), mdef('gauge', 'gn', ['l'], 'liveall'), mdef('summary', 's', ['l'])],
+                [['set', 0, ['x'], B(1.0), B(10.0)], ['set', 1, ['x'], B(2.0), B(10.0)], ['obs', 2, ['x'], B(1.0)],
+                 ['set', 0, ['x'], B(5.0), B(11.0)], ['inc', 1, ['x'], B(1.0), B(11.0)], ['obs', 2, ['x'], B(2.0)]]))
+    return out
+
+
+def relabel_insertions(steps):
+    """remove/clear of the child the NEXT step uses, at every position, with an identity change / new worker / death at
+    every place relative to it: before the removal, between removal and re-labels(), between re-labels() and the first
+    update, after the first update; incl. the return to a seen identity"""
+    n = len(steps)
+    for i in range(n + 1):
+        a, b = steps[:i], steps[i:]
+        nxt = steps[min(i, n - 1)]
+        mi, lvs = nxt[1], (nxt[2] if len(nxt) > 2 else ['x'])
+        for R in (['remove', mi, lvs], ['clear', mi]):
+            relabel = ['child', mi, lvs]
+            yield a + [R] + b
+            yield a + [['pid', 11], R] + b
+            yield a + [R, ['pid', 11]] + b
+            yield a + [R, relabel, ['pid', 11]] + b
+            yield a + [R] + b[:1] + [['pid', 11]] + b[1:]
+            yield a + [['pid', 11], R, ['pid', 10]] + b
+            yield a + [R, ['pid', 11]] + b[:1] + [['pid', 10]] + b[1:]
+            yield a + [['pid', 11]] + b[:1] + [['pid', 10], R, relabel, ['pid', 11]] + b[1:]
+            yield a + [R, ['D', 10], ['W', 10]] + b
+            yield a + [['D', 10], ['W', 10], relabel, R] + b
+            yield a + [R, ['W', 10]] + b
+            yield a + [R, ['W', 11]] + b[:1] + [R, ['W', 10]] + b[1:]
+            yield a + [R, ['pid', 11], relabel, ['D', 10]] + b
+
+
 # ================================================================================================== real fork
 def gen_fork_history(rng, all_modes):
     h = gen_history(rng, all_modes, long=True)
@@ -656,7 +746,7 @@ def gen_fork_history(rng, all_modes):
         if st[0] == 'pid':
             if phases[-1]:
                 phases.append([])
-        elif st[0] != 'reset':
+        elif st[0] not in ('reset', 'remove', 'clear'):
             phases[-1].append(st)
     if not phases[-1]:
         phases.pop()
@@ -890,10 +980,12 @@ def run(ctx):
                 'all metric types, all gauge modes, metrics sharing a per-type file); family "generations": 4 base scripts with '
                 'mark_process_dead / new worker (reused or fresh pid) placed at every position, then seeded random worlds of 1-4 '
                 'worker generations with identity changes inside and deaths between and inside them; one case = one history, '
-                'observed after every step; non-trivial when it contains an identity change, a new worker or a death; '
+'family "relabel": 3 base scripts on labelled metrics with remove()/clear() of the next child at every position and '
+                'an identity change / new worker / death at every place relative to it, plus remove/clear sprinkled into all random '
+                'histories; observed after every step; non-trivial when it contains an identity change, a new worker or a death; '
                 'distinct by value-level log + final collection')
     quick = ctx.tier == 'quick'
-    budget = 42.0 if quick else 420.0
+    budget = 52.0 if quick else 480.0
     n_random = 350 if quick else 5000
     n_world = 220 if quick else 4000
     n_fork = 2 if quick else 200
@@ -924,12 +1016,25 @@ def run(ctx):
             if len(batch) >= 60:
                 flush(ctx, rep, batch)
     flush(ctx, rep, batch)
+    fifteen = {'pool': [mdef('counter', 'cl', ['l'])], 'pid0': 10, 'variant': 0, 'steps': [
+        ['inc', 0, ['x'], B(1.0)], ['remove', 0, ['x']], ['inc', 0, ['x'], B(2.0)], ['pid', 11], ['inc', 0, ['x'], B(4.0)],
+        ['pid', 10], ['inc', 0, ['x'], B(8.0)]]}      # collects 15
+    batch.append((fifteen, run_history(fifteen)))
+    ctx.count('histories:relabel-systematic')
+    for pool, steps in relabel_bases():
+        for k, ins in enumerate(relabel_insertions(steps)):
+            scen = {'pool': pool, 'pid0': 10, 'steps': ins, 'variant': 0}
+            batch.append((scen, run_history(scen, k == 33 and len(ctx.samples) < 6)))
+            ctx.count('histories:relabel-systematic')
+            if len(batch) >= 60:
+                flush(ctx, rep, batch)
+    flush(ctx, rep, batch)
     for k in range(n_fork):
         scen = gen_fork_history(ctx.rng, all_modes)
         batch.append((scen, run_fork_history(scen)))
     flush(ctx, rep, batch)
     for k in range(n_world):
-        if time.time() - t0 > budget * 0.55:
+        if time.time() - t0 > budget * 0.75:
             ctx.count('histories:skipped-for-time', n_world - k)
             break
         scen = gen_world(ctx.rng, all_modes, long=(k % 6 == 5))
